@@ -133,6 +133,7 @@ type world struct {
 	lastFetched map[int]map[[2]int]bool
 	mvalid      map[int]bool
 	count       map[[3]int]int
+	pendingIdx  bool // attester: an indices change was sent since the last tick (the next tick resets after executing)
 
 	res  *vh.Result
 	beh  string
@@ -391,7 +392,14 @@ func (w *world) observe(recs []rec, tickSlot, cur int) tickObs {
 			}
 		}
 	}
-	fetchedKey := false
+	if tickSlot >= 0 && w.pendingIdx {
+		// attester, first tick after an indices change: the pinned handler executes from the old store (demanded
+		// above, from the pre-tick state), then resets the epoch, then re-fetches
+		w.pendingIdx = false
+		w.mvalid[k] = false
+	}
+	exempt := map[[2]int]bool{}
+	sawDisp := false
 	for _, r := range recs {
 		if r.Fetch {
 			okI := 0
@@ -403,15 +411,22 @@ func (w *world) observe(recs []rec, tickSlot, cur int) tickObs {
 				}
 				w.lastFetched[r.Key] = set
 				w.mvalid[r.Key] = true
-			} else {
-				w.mvalid[r.Key] = false
+				if tickSlot >= 0 && r.Key == k && !sawDisp {
+					// a successful fetch of the tick's own key that is not preceded by a dispatch: the handler may have
+					// fetched first; duties the new assignment no longer contains are not demanded
+					for d := range due {
+						_, e := w.entry(d[0], d[1])
+						if !set[e] {
+							exempt[d] = true
+						}
+					}
+				}
 			}
-			if tickSlot >= 0 && r.Key == k {
-				fetchedKey = true
-			}
+			// a failed fetch leaves every pinned handler's store untouched: validity is unchanged
 			o.fetches = append(o.fetches, [2]int{r.Key, okI})
 			continue
 		}
+		sawDisp = true
 		id := [3]int{int(r.Type), r.Slot, r.V}
 		w.count[id]++
 		what := fmt.Sprintf("%s duty slot %d validator %d", r.Type, r.Slot, r.V)
@@ -438,9 +453,9 @@ func (w *world) observe(recs []rec, tickSlot, cur int) tickObs {
 			o.sec[[2]int{r.Slot, r.V}] = true
 		}
 	}
-	if demand && !fetchedKey {
+	if demand {
 		for d := range due {
-			if !o.prim[d] {
+			if !o.prim[d] && !exempt[d] {
 				w.res.Violate("valid-duty-not-dispatched", fmt.Sprintf("%s handler did not dispatch the duty of validator %d at the tick of slot %d although key %d was fetched successfully before the tick and nothing invalidated it since", w.role, d[1], tickSlot, k), w.beh, w.step)
 			}
 		}
@@ -457,7 +472,19 @@ func setList(m map[[2]int]bool) [][2]int {
 	return out
 }
 
-// invalidate: the monitor's storeValid (DESIGN 5 C16): events after which a dispatch from the old store is not demanded
+// invalidate: the monitor's storeValid (DESIGN 5 C16, table at mvalid in spec/Scheduler.tla): a key leaves only where
+// the pinned handler resets the store before a re-fetch succeeds.
+//
+//	reorg Previous   att: e, and e+1 if shouldFetchNexEpoch(slot)        prop: -        sync: -
+//	reorg Current    att: e+1 if shouldFetchNexEpoch(slot)               prop: e        sync: p+1 if shouldFetchNextPeriod(slot)
+//	indices change   att: e+1 at once if shouldFetchNexEpoch(slot),      prop: -        sync: -
+//	                      e at the next tick after its execution
+//	failed fetch     -  (no handler touches the store)
+func (w *world) shouldFetchNext(slot int) bool { return slot%w.spe > w.spe/2-2 }
+func (w *world) shouldFetchNextPeriod(slot int) bool {
+	return slot%w.spe >= w.spe/2-1 && (slot/w.spe)%w.epp >= w.epp-2
+}
+
 func (w *world) invalidate(keys ...int) {
 	for _, k := range keys {
 		w.mvalid[k] = false
@@ -506,14 +533,19 @@ func (w *world) reorg(kind string) tickObs {
 	w.start()
 	k := w.keyOf(w.slot)
 	switch {
-	case w.role == "att" && kind == "prev":
-		w.invalidate(k, k+1)
-	case w.role == "att" && kind == "cur":
-		w.invalidate(k + 1)
+	case w.role == "att":
+		if kind == "prev" {
+			w.invalidate(k)
+		}
+		if w.shouldFetchNext(w.slot) {
+			w.invalidate(k + 1)
+		}
 	case w.role == "prop" && kind == "cur":
 		w.invalidate(k)
 	case w.role == "sync" && kind == "cur":
-		w.invalidate(k + 1)
+		if w.shouldFetchNextPeriod(w.slot) {
+			w.invalidate(k + 1)
+		}
 	}
 	ev := duties.ReorgEvent{Slot: phase0.Slot(w.slot), Previous: kind == "prev", Current: kind == "cur"}
 	select {
@@ -530,7 +562,12 @@ func (w *world) reorg(kind string) tickObs {
 func (w *world) indicesChange(active []int) tickObs {
 	w.start()
 	k := w.keyOf(w.slot)
-	w.invalidate(k, k+1)
+	if w.role == "att" {
+		w.pendingIdx = true
+		if w.shouldFetchNext(w.slot) {
+			w.invalidate(k + 1)
+		}
+	}
 	w.mu.Lock()
 	w.active = append([]int{}, active...)
 	sort.Ints(w.active)
